@@ -19,7 +19,7 @@ TECHNIQUE = (
 )
 LEVEL_TEXT = (
     "Generated peer histories (T_ACK/T_NAK with any number, duplicates in the same instant, responses early/late/duplicated/out of order/wrong "
-    "type, T_Disconnect at any point, frames of a stranger, silence; delays on and around the 3 s / 6 s timeouts) plus a fixed list of corner "
+    "type, T_Disconnect at any point, frames of a stranger, silence; delays on and around the 3 s / 6 s timeouts; the application cancelling the task that runs request() while it waits for the L_Data.con, the T_ACK, the response or during the repetition, with further requests on the same open connection) plus a fixed list of corner "
     "histories are replayed against the real connection. The space of histories is unbounded, so this is exploration."
 )
 LEVEL_NOTE = (
@@ -104,7 +104,13 @@ def gen_history(rng, long_run=False):
     for _ in range(nreq + 1):  # idle[0] fires right after connect
         hist["idle"].append([_rand_item(rng) for _ in range(rng.choice((0, 0, 0, 1, 2)))] if not long_run else [])
         hist["gaps"].append(rng.choice((0.0, 0.0, 0.1, 1.0, 7.0)) if not long_run else 0.0)
-    if rng.random() < 0.08 and not long_run:
+    if nreq >= 2 and rng.random() < 0.2 and not long_run:
+        # the application cancels the task running request() number `req`, `delay` after its first / second transmission;
+        # the connection stays open and the later requests go on
+        hist["cancel"] = {"req": rng.randrange(nreq - 1), "tx": rng.choice((0, 0, 0, 1)),
+                          "delay": rng.choice((0.0, 0.005, 0.01, 0.015, 0.02, 0.021, 0.1, 0.5, 2.999, 3.0, 5.9)),
+                          "con_delay": rng.choice((None, None, 0.2))}
+    elif rng.random() < 0.08 and not long_run:
         # local link-layer trouble: index of the transmission that is not confirmed / fails
         hist["con"] = {"n": rng.randrange(0, 2 * nreq + 2), "mode": rng.choice(("none", "raise", 0.5))}
     return hist
@@ -115,9 +121,9 @@ def corner_histories():
     A, R = (0.01, "ack", 0, 1), (0.02, "resp", ("ok", 0), 1)
     out = []
 
-    def h(name, reactions, idle=None, nreq=1, gaps=None):
+    def h(name, reactions, idle=None, nreq=1, gaps=None, cancel=None):
         out.append({"name": name, "requests": ["dd", "mem", "dd", "mem"][:nreq], "reactions": reactions,
-                    "idle": idle or [[] for _ in range(nreq + 1)], "gaps": gaps or [0.0] * (nreq + 1), "con": None})
+                    "idle": idle or [[] for _ in range(nreq + 1)], "gaps": gaps or [0.0] * (nreq + 1), "con": None, "cancel": cancel})
 
     h("clean", [[A, R]])
     h("clean-3", [[A, R]] * 3, nreq=3)
@@ -153,6 +159,18 @@ def corner_histories():
     h("stranger-ack-connect-disconnect", [[A, (0.012, "sack", 0, 1), (0.013, "sconn", None, 1), (0.014, "sdisc", None, 1), R]])
     h("data-after-peer-disconnect", [[A, R], []], idle=[[], [(0.0, "disc", None, 1), (0.01, "resp", ("ok", 0), 1)], []], nreq=2, gaps=[0, 0.1, 0])
     h("silence", [[A], [A]], nreq=2)
+    # the task running request() is cancelled at each await stage; two more requests follow on the same open connection
+    for req in (0, 1):
+        pre = [[A, R]] * req
+        n = req + 3
+        h(f"cancel-{req}-waiting-for-confirmation", pre + [[A, R]] * 3, nreq=n, cancel={"req": req, "tx": 0, "delay": 0.1, "con_delay": 0.2})
+        h(f"cancel-{req}-waiting-for-ack", pre + [[A, R]] * 3, nreq=n, cancel={"req": req, "tx": 0, "delay": 0.005, "con_delay": None})
+        h(f"cancel-{req}-waiting-for-ack-peer-silent", pre + [[]] + [[A, R]] * 2, nreq=n, cancel={"req": req, "tx": 0, "delay": 1.0, "con_delay": None})
+        h(f"cancel-{req}-waiting-for-response", pre + [[A, R]] * 3, nreq=n, cancel={"req": req, "tx": 0, "delay": 0.015, "con_delay": None})
+        h(f"cancel-{req}-waiting-for-response-peer-silent", pre + [[A]] + [[A, R]] * 2, nreq=n, cancel={"req": req, "tx": 0, "delay": 2.0, "con_delay": None})
+        h(f"cancel-{req}-in-the-instant-of-the-response", pre + [[A, R]] * 3, nreq=n, cancel={"req": req, "tx": 0, "delay": 0.02, "con_delay": None})
+        h(f"cancel-{req}-during-repetition", pre + [[], [A, R], [A, R], [A, R]], nreq=n, cancel={"req": req, "tx": 1, "delay": 0.005, "con_delay": None})
+        h(f"cancel-{req}-during-repetition-waiting-for-response", pre + [[], [A, R], [A, R], [A, R]], nreq=n, cancel={"req": req, "tx": 1, "delay": 0.015, "con_delay": None})
     return out
 
 
@@ -162,14 +180,18 @@ def corner_histories():
 
 
 @contextlib.contextmanager
-def _watch_receive(log, clock):
+def _watch_receive(log, clock, state=None):
     orig = P2PConnection._receive
 
     async def _receive(self, expected_payload):
         log.append(("receive_start", clock()))
+        if state is not None:
+            state["receiving"] = True
         try:
             return await orig(self, expected_payload)
         finally:
+            if state is not None:
+                state["receiving"] = False
             log.append(("receive_done", clock()))
 
     P2PConnection._receive = _receive
@@ -246,18 +268,47 @@ def run_history(ctx, hist, judge=True):
             st["data_tx"] += 1
             st["last_tx_seq"] = rec["seq"]
             rec["request_index"] = st.get("req_index")
+            k = st.get("req_tx", 0)
+            st["req_tx"] = k + 1
+            if cancel and cancel["req"] == st.get("req_index") and cancel["tx"] == k:
+                loop.call_later(cancel["delay"], fire_cancel, st.get("req_index")) if cancel["delay"] > 0 else loop.call_soon(fire_cancel, st.get("req_index"))
             if rec.get("con") == "raise":
                 return
             if j < len(hist["reactions"]):
-                schedule(hist["reactions"][j], st.get("want", "dd"))
+                lag = float(rec["con"]) if isinstance(rec.get("con"), float) else 0.0  # the peer sees the frame when it is confirmed
+                schedule([(d + lag if lag else d, a, b, c) for (d, a, b, c) in hist["reactions"][j]], st.get("want", "dd"))
         elif rec["dst"] == PEER and rec["tpci"] == "TAck":
             if rec["seq"] == st["next"]:
                 st["next"] = (st["next"] + 1) & 0xF  # a real peer advances once its frame is acknowledged
+
+    cancel = hist.get("cancel")
+
+    def fire_cancel(i):
+        task = st.get("task")
+        if task is not None and not task.done() and st.get("req_index") == i:
+            st["cancelled"] = i
+            stage = "waiting-for-ack"
+            if st.get("con_pending"):
+                stage = "waiting-for-confirmation"
+            elif st.get("receiving"):
+                stage = "waiting-for-response"
+            elif st.get("req_tx", 0) >= 2:
+                stage = "repetition-waiting-for-ack"
+            link.log.append(("cancel", i, now(), stage))
+            task.cancel()
 
     link.on_tx = on_tx
     con = hist.get("con")
     if con:
         link.con_mode = lambda rec: con["mode"] if rec["n"] == con["n"] else "ok"
+    elif cancel and cancel.get("con_delay"):
+        def con_mode(rec):
+            if rec["dst"] == PEER and rec["tpci"] == "TDataConnected" and st.get("req_index") == cancel["req"]:
+                st["con_pending"] = True
+                loop.call_later(cancel["con_delay"], st.__setitem__, "con_pending", False)
+                return float(cancel["con_delay"])
+            return "ok"
+        link.con_mode = con_mode
 
     async def main():
         try:
@@ -278,16 +329,29 @@ def run_history(ctx, hist, judge=True):
             payload = apci.DeviceDescriptorRead(descriptor=0) if kind == "dd" else apci.MemoryRead(address=0x0100, count=2)
             rec = {"i": i, "kind": kind, "start": now()}
             link.log.append(("request_start", i, now()))
-            try:
-                resp = await conn.request(payload)
-                rec["outcome"] = "returned"
-                rec["telegram"] = resp
-            except ManagementConnectionError as exc:
-                rec["outcome"] = type(exc).__name__
-                rec["exception"] = str(exc)[:100]
-            except BaseException as exc:  # noqa: BLE001
-                rec["outcome"] = "other:" + type(exc).__name__
-                rec["exception"] = repr(exc)[:160]
+            st["req_tx"] = 0
+            task = asyncio.ensure_future(conn.request(payload))
+            st["task"] = task
+            await asyncio.wait([task])
+            if task.cancelled():
+                if st.get("cancelled") == i:
+                    rec["outcome"] = "cancelled-by-the-application"
+                else:
+                    rec["outcome"] = "other:CancelledError"
+                    rec["exception"] = "CancelledError although nobody cancelled this request"
+            else:
+                exc = task.exception()
+                if exc is None:
+                    rec["outcome"] = "returned"
+                    rec["telegram"] = task.result()
+                elif isinstance(exc, ManagementConnectionError):
+                    rec["outcome"] = type(exc).__name__
+                    rec["exception"] = str(exc)[:100]
+                else:
+                    rec["outcome"] = "other:" + type(exc).__name__
+                    rec["exception"] = repr(exc)[:160]
+            if st.get("cancelled") is not None and st["cancelled"] < i:
+                rec["after_cancel"] = True
             rec["end"] = now()
             results.append(rec)
             link.log.append(("request_end", i, now()))
@@ -305,7 +369,7 @@ def run_history(ctx, hist, judge=True):
         await asyncio.sleep(10)
 
     obs = {"hist": hist, "harness": None}
-    with _watch_receive(link.log, now):
+    with _watch_receive(link.log, now, st):
         try:
             loop.run(main(), max_vtime=5000)
         except Deadlock:
@@ -351,6 +415,10 @@ def _witness(obs, **more):
 def _judge(ctx, obs):
     hist = obs["hist"]
     link_fault = hist.get("con") is not None
+    for e in obs["log"]:
+        if e[0] == "cancel":
+            ctx.count("requests_cancelled_by_the_application")
+            ctx.count("cancelled_while_" + e[3])
     ctx.ev()
     if obs["harness"]:
         ctx.violation(f"history-does-not-terminate-{obs['harness']}", _witness(obs),
@@ -369,6 +437,7 @@ def _judge(ctx, obs):
     eset = {0}
     slot_full = {False}
     receive_started = None
+    cancel_edge = False
     accepted = {}  # uid -> True (certain) | "maybe"
     unacked = []  # received data frames not yet matched with a T_ACK: dict(src, n, admissible, reason)
     data_numbers = []  # (request_index, seq, payload repr) of outgoing data to the peer
@@ -383,7 +452,12 @@ def _judge(ctx, obs):
             receive_started = e[1]
         elif kind == "receive_done":
             receive_started = None
+            cancel_edge = False
             slot_full = {False}
+        elif kind == "cancel":
+            # the cancelled waiter stays in place until the task gets to run its `finally`: a frame arriving in between
+            # (same instant) may or may not be taken
+            cancel_edge = receive_started is not None
         elif kind == "rx":
             r = e[1]
             ctx.count(f"rx_{r.get('what')}")
@@ -406,7 +480,7 @@ def _judge(ctx, obs):
                                 "time": r["time"], "expected": sorted(eset)})
                 if in_seq:
                     # exactly at the 6 s receive timeout the cancelled waiter may or may not still be in place
-                    edge = receive_started is not None and abs(r["time"] - (receive_started + 6.0)) < 1e-6
+                    edge = (receive_started is not None and abs(r["time"] - (receive_started + 6.0)) < 1e-6) or cancel_edge
                     free_possible = False in slot_full
                     certain = slot_full == {False} and eset == {n} and not edge
                     if free_possible:
@@ -475,7 +549,13 @@ def _judge(ctx, obs):
             if res["outcome"].startswith("other:"):
                 ctx.count("link_fault_request_raises_" + res["outcome"][6:])  # recorded: outside the statement's quantifier
             continue
-        if dur > BOUND:
+        if res["outcome"] == "cancelled-by-the-application":
+            continue  # the harness cancelled it; what counts is what the later requests on this connection do
+        if res.get("after_cancel"):
+            ctx.count("requests_after_a_cancellation")
+            if res["outcome"] == "returned":
+                ctx.count("requests_after_a_cancellation_returned")
+        if dur > BOUND + (1.0 if (hist.get("cancel") or {}).get("con_delay") else 0.0):
             ctx.violation("request-exceeds-the-declared-timeouts", _witness(obs, request=res["i"], duration=dur),
                           f"request {res['i']} took {dur:.3f} virtual seconds (> {BOUND})")
         if res["outcome"] == "returned":
@@ -500,6 +580,10 @@ def _judge(ctx, obs):
             else:
                 ctx.count("returned_response_accepted_by_model" if accepted[uid] is True else "returned_response_maybe_accepted")
             used.add(uid)
+        elif res["outcome"] == "other:CancelledError":
+            ctx.violation("request-raises-CancelledError-without-being-cancelled", _witness(obs, request=res["i"]),
+                          f"request {res['i']} ended with asyncio.CancelledError although "
+                          + (f"only request {hist['cancel']['req']} was cancelled" if hist.get("cancel") else "no request was cancelled"))
         elif res["outcome"].startswith("other:"):
             ctx.violation(f"request-raises-{res['outcome'][6:]}", _witness(obs, request=res["i"]),
                           f"request {res['i']} raised {res.get('exception')} which is not a ManagementConnectionError")
@@ -527,7 +611,9 @@ def run(ctx):
     )
     ctx.require("tack_sent", "tack_justified", "returned_response_accepted_by_model", "request_failed_with_management_error",
                 "repetitions_seen", "outgoing_number_wrapped", "rx_disc", "rx_data", "rx_ack", "rx_nak", "rx_sdata",
-                "peer_disconnects_on_open_connection")
+                "peer_disconnects_on_open_connection", "requests_cancelled_by_the_application", "requests_after_a_cancellation_returned",
+                "cancelled_while_waiting-for-confirmation", "cancelled_while_waiting-for-ack", "cancelled_while_waiting-for-response",
+                "cancelled_while_repetition-waiting-for-ack")
     n = 0
     for hist in corner_histories():
         n += 1
